@@ -1,5 +1,7 @@
 //! Driver for the gossipsub ROUTER family (behaviour.rs / backoff.rs / handler.rs):
 //!   router  ...   C28 C29 C35 C36 (+ router level of C32): one real Behaviour, all entry points
+//!   backoff ...   C32: the real BackoffStorage under the verif clock
+mod backoff;
 mod router;
 
 fn main() {
@@ -7,6 +9,7 @@ fn main() {
     let rest = vcommon::Args { mode: a.mode.clone(), rest: a.rest.clone() };
     match a.mode.as_str() {
         "router" => router::main(&rest),
+        "backoff" => backoff::main(&rest),
         m => {
             eprintln!("unknown mode {m}");
             std::process::exit(2)
